@@ -16,6 +16,7 @@ import (
 	"google.golang.org/protobuf/reflect/protoreflect"
 	"google.golang.org/protobuf/reflect/protoregistry"
 	"google.golang.org/protobuf/types/descriptorpb"
+	"google.golang.org/protobuf/types/gofeaturespb"
 	"google.golang.org/protobuf/types/pluginpb"
 	"google.golang.org/protobuf/zverifsim/scn"
 	"google.golang.org/protobuf/zverifsim/sim"
@@ -232,6 +233,23 @@ func c40InProcess(req *pluginpb.CodeGeneratorRequest) (resp *pluginpb.CodeGenera
 	return
 }
 
+// c40PluginTypes holds the extension types the protoc-gen-go binary has linked in: those of
+// descriptor.proto's own companions (go_features). Every other custom option of a request reaches
+// the real plugin as unknown fields of the options messages, and so it does here (the worker has the
+// test schemas linked in and would otherwise parse them into generated types).
+var c40PluginTypes = func() *protoregistry.Types {
+	t := new(protoregistry.Types)
+	t.RegisterExtension(gofeaturespb.E_Go)
+	return t
+}()
+
+// c40ParseRequest reads a serialized request the way the plugin binary does.
+func c40ParseRequest(b []byte) *pluginpb.CodeGeneratorRequest {
+	r := &pluginpb.CodeGeneratorRequest{}
+	proto.UnmarshalOptions{Resolver: c40PluginTypes}.Unmarshal(b, r)
+	return r
+}
+
 func respSet(resp *pluginpb.CodeGeneratorResponse) map[string]string {
 	m := map[string]string{}
 	for _, f := range resp.GetFile() {
@@ -263,8 +281,7 @@ func (c40) Run(s *scn.Scn, x *sim.Exec) {
 		ms := sim.Mix(uint64(s.P["perm"]), uint64(i)) | 1
 		sim.SetMapSeed(ms)
 		// a fresh request object each time: the generator may annotate what it is given
-		r := &pluginpb.CodeGeneratorRequest{}
-		proto.Unmarshal(reqBytes, r)
+		r := c40ParseRequest(reqBytes)
 		resp, rejected, panicked := c40InProcess(r)
 		if panicked != "" {
 			x.Probe("generator-panicked-(outside-the-property)", 1)
@@ -297,8 +314,8 @@ func (c40) Run(s *scn.Scn, x *sim.Exec) {
 	pr := sim.NewRng(uint64(s.P["perm"]))
 	shuffle(pr, perm)
 	if len(perm) > 1 {
-		r2 := c40Request(s, perm)
-		resp2, rej, pan := c40InProcess(r2)
+		r2b, _ := proto.MarshalOptions{Deterministic: true}.Marshal(c40Request(s, perm))
+		resp2, rej, pan := c40InProcess(c40ParseRequest(r2b))
 		if rej == "" && pan == "" {
 			x.Out.Evals++
 			r1 := &pluginpb.CodeGeneratorResponse{}
